@@ -599,15 +599,18 @@ Qed.
 Lemma number_units_length gen : forall ps id, length (number_units gen id ps) = length ps.
 Proof. induction ps as [|[[st ev] tm] r IH]; intros id; cbn [number_units length]; [reflexivity|rewrite IH; reflexivity]. Qed.
 
-Lemma define_inv cfg c newsys s W : all_off cfg -> Inv W -> Inv (define cfg c newsys s W).
+Lemma define_mid_inv (c : N) (newsys : bool) (s : fspec) (W : world) : Inv W ->
+  let gen := w_next W in
+  let units := number_units gen (gen + 1) (if newsys then new_protos s else legacy_protos s) in
+  let f := {| f_gen := gen; f_ctx := c; f_new := newsys; f_units := units; f_svc := s_svc s; f_pos := s_pos s |} in
+  let Wf := {| w_led := w_led W; w_funcs := w_funcs W ++ [f]; w_active := w_active W; w_delayed := w_delayed W;
+               w_pending := w_pending W; w_zombie := w_zombie W; w_running := w_running W; w_starting := w_starting W;
+               w_hdl := w_hdl W; w_auto := w_auto W; w_next := gen + 1 + N.of_nat (length units); w_log := w_log W |} in
+  let Ws := if newsys then Wf else svc_register Wf f in
+  let W1 := set_delayed (set_active Ws (w_active Ws ++ [gen])) (w_delayed Ws ++ [gen]) in
+  Inv W1 /\ w_funcs W1 = w_funcs W ++ [f].
 Proof.
-  intros AO HI. pose proof HI as [I [S L]]. unfold define.
-  set (gen := w_next W).
-  set (units := number_units gen (gen + 1) (if newsys then new_protos s else legacy_protos s)).
-  set (f := {| f_gen := gen; f_ctx := c; f_new := newsys; f_units := units; f_svc := s_svc s; f_pos := s_pos s |}).
-  set (Wf := {| w_led := w_led W; w_funcs := w_funcs W ++ [f]; w_active := w_active W; w_delayed := w_delayed W;
-                w_pending := w_pending W; w_zombie := w_zombie W; w_running := w_running W; w_starting := w_starting W;
-                w_hdl := w_hdl W; w_auto := w_auto W; w_next := gen + 1 + N.of_nat (length units); w_log := w_log W |}).
+  intros HI gen units f Wf. pose proof HI as [I [S L]].
   assert (HU : forall u, In u units -> u_gen u = gen /\ gen < u_id u /\ u_id u < gen + 1 + N.of_nat (length units)).
   { intros u Hu. destruct (number_units_in _ _ _ _ Hu) as [A [B C]]. unfold units. rewrite number_units_length. lia. }
   assert (P0 : 0 < gen) by apply (io_next W I).
@@ -648,13 +651,6 @@ Proof.
         split; [exact R|]. exists f', u'. split; [apply OM; exact O'|exact X].
       + exact KT.
       + intros g Hg. destruct (KV g Hg) as [A [f' [Hf' X]]]. split; [exact A|]. exists f'. split; [apply in_or_app; left; exact Hf'|exact X]. }
-  cbv zeta. fold gen. fold units. fold f. fold Wf.
-  destruct (negb newsys && svc_refused Wf f).
-  { (* refused legacy definition: only the id counter moves *)
-    apply (Inv_res W _ HI); wsimpl; [repeat split; try reflexivity; cbn [set_next w_next]; lia| | |].
-    - intros f' u' O' _ A D. auto.
-    - apply (so_act W S).
-    - apply (ok_svc W L). }
   assert (Hff : In f (w_funcs Wf)) by (cbn; apply in_or_app; right; left; reflexivity).
   assert (OLD : forall g, In g (w_active Wf) -> g <> gen).
   { intros g H ->. cbn [Wf w_active] in H.
@@ -680,9 +676,28 @@ Proof.
         apply (OLD g); [exact A|symmetry; exact C].
       + split; [apply in_or_app; right; left; reflexivity|]. exists f. repeat split; try assumption || reflexivity.
         cbn [f f_new]. congruence. }
-  fold Ws. fold W1.
+  split; [exact H1|]. destruct SR as [F2 _]. unfold W1. wsimpl. rewrite F2. reflexivity.
+Qed.
+
+Lemma define_inv cfg c newsys s W : all_off cfg -> Inv W -> Inv (define cfg c newsys s W).
+Proof.
+  intros AO HI. pose proof HI as [I [S L]]. unfold define.
+  set (gen := w_next W).
+  set (units := number_units gen (gen + 1) (if newsys then new_protos s else legacy_protos s)).
+  set (f := {| f_gen := gen; f_ctx := c; f_new := newsys; f_units := units; f_svc := s_svc s; f_pos := s_pos s |}).
+  set (Wf := {| w_led := w_led W; w_funcs := w_funcs W ++ [f]; w_active := w_active W; w_delayed := w_delayed W;
+                w_pending := w_pending W; w_zombie := w_zombie W; w_running := w_running W; w_starting := w_starting W;
+                w_hdl := w_hdl W; w_auto := w_auto W; w_next := gen + 1 + N.of_nat (length units); w_log := w_log W |}).
+  cbv zeta.
+  destruct (negb newsys && svc_refused Wf f).
+  { (* refused legacy definition: only the id counter moves *)
+    apply (Inv_res W _ HI); wsimpl; [repeat split; try reflexivity; cbn [set_next w_next]; lia| | |].
+    - intros f' u' O' _ A D. auto.
+    - apply (so_act W S).
+    - apply (ok_svc W L). }
+  destruct (define_mid_inv c newsys s W HI) as [H1 F1]. cbv zeta in H1, F1. fold gen units f Wf in H1, F1.
   destruct (memn c (w_auto W)); [|exact H1].
-  apply ctx_start_func_inv; [exact AO|exact H1|]. destruct SR as [F2 _]. unfold W1. wsimpl. rewrite F2. exact Hff.
+  apply ctx_start_func_inv; [exact AO|exact H1|]. rewrite F1. apply in_or_app. right; left; reflexivity.
 Qed.
 
 (* ============================================================================================== *)
@@ -760,9 +775,16 @@ Proof.
     + split; [exact H2|exact (shrink_trans _ _ _ S1 S2)].
 Qed.
 
-Lemma ctx_start_inv cfg c W : all_off cfg -> Inv W -> Inv (ctx_start cfg c W) /\ shrink W (ctx_start cfg c W).
+Lemma order_funcs_In ord fs f : In f (order_funcs ord fs) -> In f fs.
 Proof.
-  intros AO HI. unfold ctx_start. destruct (fold_ctx_start cfg c AO (w_funcs W) W HI (fun f H => H)) as [H1 S1].
+  unfold order_funcs. intros H. apply in_app_or in H. destruct H as [H|H].
+  - apply in_flat_map in H. destruct H as [g [_ H]]. apply filter_In in H. tauto.
+  - apply filter_In in H. tauto.
+Qed.
+
+Lemma ctx_start_inv cfg c ord W : all_off cfg -> Inv W -> Inv (ctx_start cfg c ord W) /\ shrink W (ctx_start cfg c ord W).
+Proof.
+  intros AO HI. unfold ctx_start. destruct (fold_ctx_start cfg c AO (order_funcs ord (w_funcs W)) W HI (order_funcs_In ord (w_funcs W))) as [H1 S1].
   split; [apply Inv_set_auto; exact H1|exact S1].
 Qed.
 
